@@ -664,3 +664,43 @@ def net_bigbody_checks(tier, binaries, log, variants, prop):
                     res.append((False, "a keep-alive connection was closed after the response (%s)" % kv.get("end"), cmdline, {}))
     res.append((True, "", "", {"real_socket_runs": n, "real_socket_samples": samples}))
     return res
+
+
+def net_abrupt_checks(tier, binaries, log, variants, prop):
+    """peers that end their connection without any goodbye (TLS: no close_notify), idle or after a complete
+    keep-alive exchange: the server must signal disconnected for every connection it signalled as connected"""
+    import re
+    import subprocess
+    import vlib
+    res = []
+    n = 0
+    samples = []
+    for h in variants:
+        try:
+            binary = binaries.get(h) or vlib.build_harness(h, log)
+        except vlib.BuildError as e:
+            res.append((False, "net_driver (%s) does not build against the current tree: %s" % (h, str(e)[-300:]), "build " + h, {}))
+            continue
+        for mode in ("idle", "afterresp"):
+            args = ["abrupt", "n=%d" % (4 if tier == "quick" else 40), "mode=" + mode]
+            cmdline = "%s %s" % (h, " ".join(args))
+            try:
+                r = subprocess.run([binary] + args, capture_output=True, text=True, timeout=180)
+            except subprocess.TimeoutExpired:
+                res.append((False, "net_driver %s hung" % " ".join(args), cmdline, {}))
+                continue
+            m = re.search(r"^RESULT (.*)$", r.stdout, re.M)
+            n += 1
+            if not m:
+                res.append((False, "abort: net_driver failed: " + (r.stdout + r.stderr)[-300:], cmdline, {}))
+                continue
+            kv = dict(x.split("=", 1) for x in m.group(1).split() if "=" in x)
+            samples.append({"variant": h, "mode": mode, "connected": kv.get("connected"), "disconnected": kv.get("disconnected")})
+            if kv.get("connected") != kv.get("disconnected"):
+                res.append((False, "real socket (%s): %s connections were signalled as connected, their peers closed the socket "
+                            "(%s) and only %s were ever signalled as disconnected: the server retains the rest" % (
+                                h, kv.get("connected"), mode, kv.get("disconnected")), cmdline, {}))
+            elif kv.get("srv_exceptions") != "0":
+                res.append((False, "real socket (%s): an exception escaped into the event loop (%s)" % (h, kv.get("srv_exception")), cmdline, {}))
+    res.append((True, "", "", {"real_socket_abrupt_close_runs": n, "real_socket_abrupt_samples": samples}))
+    return res
